@@ -606,6 +606,8 @@ impl Core {
     ) -> Result<(), String> {
         if let Some(rules_engine) = &context.settings.rules_engine {
             if let Some(ip) = client_ip {
+                // an IPv4 peer of a dual-stack listener is reported as `::ffff:a.b.c.d`
+                let ip = ip.to_canonical();
                 let rule_result = rules_engine.evaluate(&ip, client_random);
                 match rule_result {
                     rules::RuleEvaluation::Deny => {
